@@ -1,10 +1,171 @@
-/- Line-protocol driver for C08 (stub until the property's models exist). -/
+/-
+  Line-protocol driver for C08 (interaction programs under completion-code faults).
+
+    ping                                   -> pong
+    info                                   -> <number of table entries>
+    accept <op> <trace>                    -> yes <decisions> | no
+        does the generated skeleton of operation <op> admit this sequence of request
+        classes (registry indices; `-` = none)?
+    run <op> <trace> <faults>              -> <tag> <nreq> | no-match
+        replay the skeleton along the decisions that produce <trace>, against a device that
+        answers OK except at the faulted positions; <faults> = `-` | k:c,k:c,…
+    fru <storehex> <off|-> <count|-> <faults>      -> ok <hex> <nreq> | <tag> <nreq>
+    clear <budget> <faults>                        -> <tag> <nreq>
+    andwait <busy 0|1> <polls> <faults>            -> <tag> <nreq>
+    upload <nblocks> <busy 0|1> <polls> <faults>   -> <tag> <nreq>
+    chunk <budget> <faults>                        -> <tag> <nreq>
+    props <strict 0|1> <faults>                    -> ok <items> <nreq> | <tag> <nreq>
+    chanauth <hasMethod 0|1> <faults>              -> <tag> <nreq>
+-/
 import PyIpmi.Base.Proto
-open PyIpmi.Proto
+import PyIpmi.Model.Prog
+import PyIpmi.Spec.FaultDevice
+import PyIpmi.Gen.ApiShapes
+open PyIpmi PyIpmi.Proto PyIpmi.Prog PyIpmi.Spec.FaultDevice PyIpmi.Gen.ApiShapes
+
+def parseFaults (s : String) : Option (List (Nat × Nat)) :=
+  if s == "-" then some []
+  else (s.splitOn ",").mapM fun kc =>
+    match kc.splitOn ":" with
+    | [k, c] => do let k ← k.toNat?; let c ← c.toNat?; pure (k, c)
+    | _ => none
+
+def faultMap (fs : List (Nat × Nat)) : Nat → Option Nat :=
+  fun n => (fs.find? fun kc => kc.1 == n).map (·.2)
+
+def resTag {α : Type} (r : Res α) : String := r.toOutcome.tag
+
+def runOn {α : Type} (p : Prog α) (base : Req → Rsp) (fs : List (Nat × Nat)) : Res α × Nat :=
+  let x := exec p (faultsDev base (faultMap fs)) 0
+  (x.2.1, x.2.2.length)
+
+/-- The device the handler models run against (mirrors harness/sim/fault_iface.py for the
+commands involved): 1 area info, 2 read FRU, 3 reserve, 4 clear/initiate, 5 clear/status,
+6 HPM action, 7 get upgrade status, 8 upload block, 9 get SDR chunk, 10 component property,
+11 channel authentication capabilities. -/
+def drvBase (store : List Nat) (busyHpm : Bool) : Req → Rsp := fun r =>
+  match r.cmd with
+  | 1 => ⟨0, [store.length % 256, store.length / 256, 0]⟩
+  | 2 =>
+    match r.data with
+    | [_, lo, hi, n] =>
+      let off := lo + 256 * hi
+      if off ≥ store.length then ⟨0xC9, []⟩
+      else
+        let d := (store.drop off).take n
+        ⟨0, d.length :: d⟩
+    | _ => ⟨0xC7, []⟩
+  | 3 => ⟨0, [0x0b, 0x1b]⟩
+  | 4 => ⟨0, [1]⟩
+  | 5 => ⟨0, [1]⟩
+  | 7 => ⟨0, [0, 0x31, if busyHpm then 0x80 else 0, 0x32]⟩
+  | 10 => ⟨0, 0 :: r.data⟩
+  | _ => ⟨0, []⟩
+
+def reserveP : Prog Nat :=
+  (sendChecked ⟨3, []⟩).bind fun rsp => .done (rsp.data.headD 0 + 256 * (rsp.data.getD 1 0))
+
+def statusBusy (rsp : Rsp) : Bool := rsp.data.getD 2 0 == 0x80
+
+def mkRead (off n : Nat) : Req := ⟨2, [0, off % 256, off / 256, n]⟩
+
+def back : List Nat := codes_fruBackoff
 
 def handleC08 (line : String) : String :=
   match tokens line with
   | ["ping"] => "pong"
+  | ["info"] => toString table.length
+  | ["accept", op, tr] =>
+    match op.toNat?, parseNatList tr with
+    | some i, some t =>
+      match skTable[i]? with
+      | some sk =>
+        match Sk.accepting skTable 400 sk t with
+        | some m => "yes " ++ (if m.choices.isEmpty then "-" else String.join (m.choices.map fun b => if b then "1" else "0"))
+        | none => "no"
+      | none => "bad-op"
+    | _, _ => "bad-op"
+  | ["run", op, tr, fs] =>
+    match op.toNat?, parseNatList tr, parseFaults fs with
+    | some i, some t, some f =>
+      match skTable[i]? with
+      | some sk =>
+        match Sk.accepting skTable 400 sk t with
+        | some m =>
+          let p := Sk.run (Env.replay m.choices) skTable 400 sk {}
+          let (r, n) := runOn p (fun _ => ⟨0, []⟩) f
+          s!"{resTag r} {n}"
+        | none => "no-match"
+      | none => "bad-op"
+    | _, _, _ => "bad-op"
+  | ["fru", sh, off, cnt, fs] =>
+    match ofHex sh, parseFaults fs with
+    | some store, some f =>
+      let base := drvBase store false
+      let p : Option (Prog (List Nat)) :=
+        if off == "-" then
+          some (readFruData ⟨1, [0]⟩ (fun rsp => rsp.data.headD 0 + 256 * rsp.data.getD 1 0) mkRead
+            (·.data.headD 0) (·.data.tail) back (2 * store.length + 40) 32)
+        else
+          match off.toNat?, cnt.toNat? with
+          | some o, some c => some (readFru mkRead (·.data.headD 0) (·.data.tail) back (o + c) (2 * (o + c) + 40) o 32 [])
+          | _, _ => none
+      match p with
+      | some p =>
+        let (r, n) := runOn p base f
+        match r with
+        | .ok d => s!"ok {toHex d} {n}"
+        | e => s!"{resTag e} {n}"
+      | none => "bad-op"
+    | _, _ => "bad-op"
+  | ["clear", budget, fs] =>
+    match budget.toNat?, parseFaults fs with
+    | some b, some f =>
+      let p := clearRepository 0xC5 reserveP (fun r => ⟨4, [r % 256, r / 256]⟩) (fun r => ⟨5, [r % 256, r / 256]⟩)
+        (fun rsp => rsp.data.headD 0 % 16 == 0) b
+      let (r, n) := runOn p (drvBase [] false) f
+      s!"{resTag r} {n}"
+    | _, _ => "bad-op"
+  | ["andwait", busy, polls, fs] =>
+    match polls.toNat?, parseFaults fs with
+    | some pl, some f =>
+      let p := andWait 0x80 ((sendChecked ⟨6, []⟩).bind fun _ => .done ()) (waitLong ⟨7, []⟩ statusBusy pl)
+      let (r, n) := runOn p (drvBase [] (busy == "1")) f
+      s!"{resTag r} {n}"
+    | _, _ => "bad-op"
+  | ["upload", nb, busy, polls, fs] =>
+    match nb.toNat?, polls.toNat?, parseFaults fs with
+    | some nb, some pl, some f =>
+      let blocks := (List.range nb).map fun i => (⟨8, [i]⟩ : Req)
+      let p := uploadBinary 0x80 (waitLong ⟨7, []⟩ statusBusy pl) blocks
+      let (r, n) := runOn p (drvBase [] (busy == "1")) f
+      s!"{resTag r} {n}"
+    | _, _, _ => "bad-op"
+  | ["chunk", budget, fs] =>
+    match budget.toNat?, parseFaults fs with
+    | some b, some f =>
+      let res := 0x0b + 256 * 0x1b
+      let setRes (r : Nat) (q : Req) : Req := { q with data := (r % 256) :: (r / 256) :: q.data.drop 2 }
+      let p := sdrChunk ⟨0xC5, 0xC3, 0xCE⟩ reserveP setRes b ⟨9, [res % 256, res / 256, 1, 0, 0, 5]⟩
+      let (r, n) := runOn p (drvBase [] false) f
+      s!"{resTag r} {n}"
+    | _, _ => "bad-op"
+  | ["props", strict, fs] =>
+    match parseFaults fs with
+    | some f =>
+      let qs := (List.range 5).map fun i => (⟨10, [1, i]⟩ : Req)
+      let p := componentProps (strict == "1") 0x83 (·.data) qs
+      let (r, n) := runOn p (drvBase [] false) f
+      match r with
+      | .ok l => s!"ok {l.length} {n}"
+      | e => s!"{resTag e} {n}"
+    | none => "bad-op"
+  | ["chanauth", has, fs] =>
+    match parseFaults fs with
+    | some f =>
+      let (r, n) := runOn (channelAuthCaps (has == "1") ⟨11, [1, 4]⟩) (drvBase [] false) f
+      s!"{resTag r} {n}"
+    | none => "bad-op"
   | _ => "bad-op"
 
 def main : IO Unit := do
